@@ -274,6 +274,14 @@ def _monitor_flags() -> str:
             parts.append(("cls_" + n, repr(getattr(d, "value", "absent"))))
     except Exception:
         parts.append(("config", "absent"))
+    try:
+        import warnings as _w
+
+        parts.append(("recursionlimit", sys.getrecursionlimit()))
+        parts.append(("warnings_filters", len(_w.filters)))
+        parts.append(("ast_unparse", _ast.unparse.__module__ + "." + _ast.unparse.__qualname__))
+    except Exception:
+        parts.append(("interp", "absent"))
     return digest(parts)[:16]
 
 
@@ -306,10 +314,13 @@ def child_history(desc: dict) -> dict:
     mon_tripped = False
     total_lines = 0
 
-    def convert(src, oid):
-        if oid is None:
-            return oneliner.convert_code_string(src)
-        return oneliner.convert_code_string(src, configs=objs[oid])
+    def convert(src, oid, filename=None):
+        kw = {}
+        if filename is not None:
+            kw["filename"] = filename
+        if oid is not None:
+            kw["configs"] = objs[oid]
+        return oneliner.convert_code_string(src, **kw)
 
     def run_op(op):
         nonlocal total_lines
@@ -323,6 +334,67 @@ def child_history(desc: dict) -> dict:
             objs[oid] = Configs()
             order.append(oid)
             models[oid] = {}
+            return ev
+        if kind == "del":
+            oid = op["obj"]
+            if oid not in objs:
+                ev["skip"] = True
+                return ev
+            del objs[oid]
+            del models[oid]
+            order.remove(oid)
+            if op.get("gc"):
+                gc.collect()
+            return ev
+        if kind == "churn":
+            # create many option objects, set an option on each, drop them all: afterwards the
+            # allocator's free lists are full of addresses that once belonged to option objects
+            tmp = []
+            try:
+                for i in range(op["n"]):
+                    t = Configs()
+                    setattr(t, op["name"], op["value"])
+                    tmp.append(t)
+                ev["out"] = "ok"
+            except BaseException as e:  # noqa: BLE001
+                ev["out"] = "exc"
+                ev["exc"] = [type(e).__name__, str(e)[:200]]
+            del tmp
+            t = None
+            if op.get("gc"):
+                gc.collect()
+            return ev
+        if kind == "copy":
+            import copy
+
+            if op["src"] not in objs or op["id"] in objs:
+                ev["skip"] = True
+                return ev
+            try:
+                objs[op["id"]] = copy.deepcopy(objs[op["src"]])
+                # no assumption about what a copy carries over: the model of the new object is
+                # what the object itself reports right after the copy
+                rb = _read_obj(objs[op["id"]])
+                models[op["id"]] = {n: rb[n] for n in OPTION_NAMES if isinstance(rb.get(n), str) and not rb[n].startswith("!")}
+                ev["readback"] = rb
+                order.append(op["id"])
+                ev["out"] = "ok"
+            except BaseException as e:  # noqa: BLE001
+                ev["out"] = "exc"
+                ev["exc"] = [type(e).__name__, str(e)[:200]]
+            return ev
+        if kind == "delattr":
+            oid = op["obj"]
+            if oid not in objs:
+                ev["skip"] = True
+                return ev
+            try:
+                delattr(objs[oid], op["name"])
+                ev["out"] = "ok"
+                models[oid].pop(op["name"], None)
+            except BaseException as e:  # noqa: BLE001
+                ev["out"] = "exc"
+                ev["exc"] = [type(e).__name__, str(e)[:200]]
             return ev
         if kind in ("set", "abort_set"):
             oid = op["obj"]
@@ -378,14 +450,17 @@ def child_history(desc: dict) -> dict:
             ev["prog"] = prog_id(op)
             ev["obj"] = oid
             ev["mkey"] = None if oid is None else mkey(models[oid])
+            fname = op.get("filename")
+            if fname is not None:
+                ev["filename"] = fname
             if kind == "conv":
-                ev.update(_outcome_of_call(lambda: convert(src, oid)))
+                ev.update(_outcome_of_call(lambda: convert(src, oid, fname)))
                 return ev
             inj = Injector(pkgdir, op["mode"], k=op.get("k", 0), func=op.get("func"), j=op.get("j", 0),
                            exc=op.get("exc", "SimAbort"))
             sys.settrace(inj.trace)
             try:
-                res = _outcome_of_call(lambda: convert(src, oid))
+                res = _outcome_of_call(lambda: convert(src, oid, fname))
             finally:
                 sys.settrace(None)
             total_lines += inj.lines
@@ -524,6 +599,9 @@ def judge(ctx: C10Ctx, desc: dict, result: dict) -> list:
             expect = ctx.ref(pid, src, "-|-|-", {})
         else:
             expect = ctx.ref(pid, src, mk, model_from_key(mk))
+        if ev.get("filename") is not None and ev.get("out") == "exc" and expect.get("out") == "exc" \
+                and ev["exc"][0] == expect["exc"][0]:
+            continue  # SyntaxError messages legitimately quote the file name passed by the caller
         if not same_outcome(ev, expect):
             if ev.get("out") == "ok" and expect.get("out") == "ok":
                 cls = "text-differs"
@@ -604,13 +682,41 @@ def gen_history(seed: int, ctx: C10Ctx, knobs: dict | None = None) -> dict:
             op["j"] = rng.randint(1, info["calls"][f])
         return op
 
+    lifecycle_rate = rng.choice([0.0, 0.0, 0.08, 0.2])
+    filename_rate = rng.choice([0.0, 0.0, 0.2])
+    n_created = 0
+
     while len(ops) < n_ops:
         c = rng.random()
         last = len(ops) == n_ops - 1
+        if not last and (live or rng.random() < 0.3) and rng.random() < lifecycle_rate:
+            k = rng.random()
+            if not live:
+                k = 0.5
+            if k < 0.45:
+                oid = rng.choice(live)
+                live.remove(oid)
+                del models[oid]
+                ops.append({"op": "del", "obj": oid, "gc": rng.random() < 0.5})
+            elif k < 0.6:
+                nm = rng.choice(OPTION_NAMES)
+                ops.append({"op": "churn", "n": rng.choice([8, 64, 200]), "name": nm, "value": OPTION_SPACE[nm][1],
+                            "gc": rng.random() < 0.5})
+            elif k < 0.85 and len(live) < 4:
+                n_created += 1
+                nid = "c%d" % n_created
+                src_o = rng.choice(live)
+                live.append(nid)
+                models[nid] = dict(models[src_o])
+                ops.append({"op": "copy", "id": nid, "src": src_o})
+            else:
+                ops.append({"op": "delattr", "obj": rng.choice(live), "name": rng.choice(OPTION_NAMES)})
+            continue
         if last and rng.random() < 0.85:
             c = 2.0  # make the last action a conversion most of the time: something is checked
         if c < 0.12 and len(live) < 4:
-            oid = "o%d" % (len(live) + 1)
+            n_created += 1
+            oid = "o%d" % n_created
             live.append(oid)
             models[oid] = {}
             ops.append({"op": "new", "id": oid})
@@ -659,6 +765,8 @@ def gen_history(seed: int, ctx: C10Ctx, knobs: dict | None = None) -> dict:
             continue
         op = {"op": "conv", "obj": pick_obj()}
         op.update(pick_prog())
+        if rng.random() < filename_rate:
+            op["filename"] = rng.choice(["x.py", "/abs/dir/mod.py", "<stdin>", ""])
         ops.append(op)
     return {"prop": "C10", "seed": seed, "ops": ops, "extend": True}
 
@@ -679,6 +787,12 @@ def abstract_trace(desc: dict, result: dict):
             continue
         if k == "new":
             models[op["id"]] = {}
+        elif k == "del":
+            models.pop(op["obj"], None)
+        elif k == "copy" and ev.get("out") == "ok":
+            models[op["id"]] = {n: v for n, v in (ev.get("readback") or {}).items() if isinstance(v, str)}
+        elif k == "delattr" and ev.get("out") == "ok":
+            models.get(op["obj"], {}).pop(op["name"], None)
         elif k == "set" and ev.get("out") == "ok":
             models[op["obj"]][op["name"]] = op["value"]
         elif k == "abort_set" and ev.get("pinned") == "new":
